@@ -100,19 +100,18 @@ Definition members_ok (c : graph_z * list obs_z) : bool :=
 Definition check_members := mismatches members_ok.
 
 (* level 2: everything (file order, import edges in order with item aliases, exports) *)
+Definition obs_part (r : result) (obs : list obs_z) : bool :=
+  let m := model_obs r in
+  (length m =? length obs)%nat &&
+  forallb (fun mo => match find_obs (obs_rep mo) obs with
+                     | Some o => obs_eqb mo o
+                     | None => false end) m
+  && negb (enforce_cycle_error (r_cross r)).
 Definition split_ok (c : graph_z * list obs_z) : bool :=
   let '(gz, obs) := c in
   match split (mk_graph gz) with
   | None => false
-  | Some r =>
-    let m := model_obs r in
-    (length m =? length obs)%nat &&
-    forallb (fun mo => match find_obs (obs_rep mo) obs with
-                       | Some o => obs_eqb mo o
-                       | None => false end) m
-    && negb (enforce_cycle_error (r_cross r))
-    (* the input the harness derived satisfies the hypothesis of the theorems *)
-    && deps_coverb (mk_graph gz)
+  | Some r => obs_part r obs && deps_coverb (mk_graph gz)
   end.
 Definition check_split := mismatches split_ok.
 
@@ -138,33 +137,40 @@ Definition dexp_eqb (m : sym * bytes) (d : (Z * Z) * bytes) : bool :=
 Definition dcross_eqb (m : cimport) (d : bool * Z) : bool :=
   Bool.eqb (i_dynamic m) (fst d) && (Z.of_nat (i_chunk m) =? snd d).
 
+Definition dump_part (g : graph) (r : result) (dump : list dchunk_z) : bool :=
+  let a := r_analysis r in
+  let chunks := a_chunks a in
+  (length chunks =? length dump)%nat &&
+  forallb (fun i =>
+    let c := nth i chunks (mkChunk [] None []) in
+    let x := nth i (r_cross r) (mkCross [] []) in
+    let '(dbits, dentry, dfiles, dimps, dexps, dcross) := nth i dump ([], -1, [], [], [], []) in
+    let statics := filter (fun im => negb (i_dynamic im)) (x_imports x) in
+    let raws := raw_imports g a i c in
+    zlist_eqb (c_bits c) dbits
+    && (match c_entry c with Some (_, e) => Z.of_nat e | None => -1 end =? dentry)
+    && zlist_eqb (map Z.of_nat (nth i (r_orders r) [])) dfiles
+    && list_eqb2 dimp_eqb (map (fun p => (fst (fst p), snd (fst p), i_items (snd p))) (combine raws statics)) dimps
+    && (length raws =? length statics)%nat
+    && list_eqb2 dexp_eqb (x_exports x) dexps
+    && list_eqb2 dcross_eqb (x_imports x) dcross)
+  (seq 0 (length chunks)).
 Definition dump_ok (c : graph_z * list dchunk_z) : bool :=
   let '(gz, dump) := c in
   let g := mk_graph gz in
   match split g with
   | None => false
-  | Some r =>
-    let a := r_analysis r in
-    let chunks := a_chunks a in
-    (length chunks =? length dump)%nat &&
-    forallb (fun i =>
-      let c := nth i chunks (mkChunk [] None []) in
-      let x := nth i (r_cross r) (mkCross [] []) in
-      let '(dbits, dentry, dfiles, dimps, dexps, dcross) := nth i dump ([], -1, [], [], [], []) in
-      let statics := filter (fun im => negb (i_dynamic im)) (x_imports x) in
-      let raws := raw_imports g a i c in
-      zlist_eqb (c_bits c) dbits
-      && (match c_entry c with Some (_, e) => Z.of_nat e | None => -1 end =? dentry)
-      && zlist_eqb (map Z.of_nat (nth i (r_orders r) [])) dfiles
-      && list_eqb2 dimp_eqb (map (fun p => (fst (fst p), snd (fst p), i_items (snd p))) (combine raws statics)) dimps
-      && (length raws =? length statics)%nat
-      && list_eqb2 dexp_eqb (x_exports x) dexps
-      && list_eqb2 dcross_eqb (x_imports x) dcross)
-    (seq 0 (length chunks))
-    && deps_coverb g
-    (* the dump is well formed in the sense of the totality theorem *)
-    && wf_graphb g
+  | Some r => dump_part g r dump && deps_coverb g && wf_graphb g
   end.
+(* both comparisons on one evaluation of the model: (graph, emitted chunks, linker chunks) *)
+Definition full_ok (c : graph_z * list obs_z * list dchunk_z) : bool :=
+  let '(gz, obs, dump) := c in
+  let g := mk_graph gz in
+  match split g with
+  | None => false
+  | Some r => obs_part r obs && dump_part g r dump && deps_coverb g && wf_graphb g
+  end.
+Definition check_full := mismatches full_ok.
 Definition check_dump := mismatches dump_ok.
 
 (* debugging aid: what the model predicts *)
